@@ -3,12 +3,17 @@ import os
 import re
 from . import common
 
-LEAN_TARGETS = ["TsrunVerif.Props.C10"]
+LEAN_TARGETS = ["TsrunVerif.Props.C10", "TsrunVerif.Props.C01Compile"]
 P = "TsrunVerif.RegAlloc."
 THEOREMS = [P + t for t in [
     "inv_init", "alloc_fresh", "free_inv", "reserve_fresh", "window_sound", "oversize_refused",
-    "saved_stack", "stmt_neutral", "restore_inv", "addConstant_sound", "addDedup_sound", "index_stable"]] + ["TsrunVerif.Gen.narrowing_reviewed"]
+    "saved_stack", "stmt_neutral", "restore_inv", "addConstant_sound", "addDedup_sound", "index_stable"]] + ["TsrunVerif.Gen.narrowing_reviewed"] + \
+    ["TsrunVerif.Compile." + t for t in ["codeE_isSome_iff", "codeS_isSome_iff", "program_refused_iff", "rightNested_limit", "leftNested_limit",
+                                          "codeE_regs", "codeS_regs", "program_registers_in_file", "compileE_restores"]]
 ASSUMPTIONS = [
+    "over M-Compile (C01's compiler model, whose instruction listing and register count are compared with the real compiler's on every C01 run): a statement of the modelled core is refused exactly when its register demand exceeds 255, "
+    "what is accepted is compiled correctly whatever its size, and no instruction names a register outside the chunk's register file",
+    "alloc_fresh / free_inv / window_sound assume a disciplined client (a register is freed once, by its holder): the allocator's cfg(tsrun_verif) hook counts undisciplined frees and allocations while the real compiler compiles the family programs and C01's feature programs; the count must be 0",
     "M-RegAlloc transcribes RegisterAllocator::{alloc,free,reserve_range,save,restore}, BytecodeBuilder::{reserve_registers_for,add_constant,add_number,add_string}; "
     "it is compared with the real builder on random operation sequences (every result, next and max_used after every op, final pool contents)",
     "that the compiler brackets every statement with save/restore and requests windows only through reserve_registers_for is read from the source "
